@@ -45,51 +45,74 @@ def _plain_local(op):
     return None
 
 
+def _src_key(op_or_place):
+    """key of a source operand / place: a local, or (local, i) for the tuple field `local.i`; None otherwise"""
+    pl = op_or_place.get("place", op_or_place) if "o" in op_or_place else op_or_place
+    if "o" in op_or_place and op_or_place["o"] not in ("copy", "move"):
+        return None
+    if not pl["proj"]:
+        return pl["l"]
+    if len(pl["proj"]) == 1 and pl["proj"][0].get("p") == "field":
+        return (pl["l"], pl["proj"][0]["i"])
+    return None
+
+
+def _kill(env, l, roots=None):
+    for k in [k for k in env if k == l or (isinstance(k, tuple) and k[0] == l)]:
+        del env[k]
+        if roots is not None:
+            roots.pop(k, None)
+
+
 def _step(env, st, roots=None):
-    """knowledge propagation over one statement; roots[l] = the locals through which the known value travelled"""
-    _step0(env, st)
-    if roots is not None and st.get("s") == "assign" and not st["place"]["proj"]:
-        l = st["place"]["l"]
-        if l in env:
-            rv = st["rv"]
-            src = None
-            if rv["r"] == "use":
-                src = _plain_local(rv["op"])
-            elif rv["r"] == "discr" and not rv["place"]["proj"]:
-                src = rv["place"]["l"]
-            roots[l] = (roots.get(src, frozenset()) if src is not None else frozenset()) | {l}
-        else:
-            roots.pop(l, None)
-
-
-def _step0(env, st):
+    """knowledge propagation over one statement.  Keys are locals or (local, i) for a field of a tuple local;
+    roots[key] = the locals through which the known value travelled"""
     s = st.get("s")
     if s not in ("assign", "setdiscr"):
         return
     l = st["place"]["l"]
     if s == "setdiscr" or st["place"]["proj"]:
-        env.pop(l, None)
+        _kill(env, l, roots)
         return
     rv = st["rv"]
     r = rv["r"]
+    new = {}       # key -> (knowledge, source key or None)
     if r == "use":
-        src = _plain_local(rv["op"])
+        src = _src_key(rv["op"])
         if src is not None and src in env:
-            env[l] = env[src]
-            return
+            new[l] = (env[src], src)
+        if isinstance(src, int):
+            for k in list(env):   # a whole tuple moved: its fields keep their knowledge
+                if isinstance(k, tuple) and k[0] == src:
+                    new[(l, k[1])] = (env[k], k)
         c = _const_bool(st)
         if c is not None:
-            env[l] = c
-            return
+            new[l] = (c, None)
     elif r == "aggregate" and rv.get("ak") == "adt" and rv.get("variant") is not None:
-        env[l] = ("variant", rv["variant"])
-        return
-    elif r == "discr" and not rv["place"]["proj"] and rv["place"]["l"] in env and rv.get("variants"):
-        k = env[rv["place"]["l"]]
+        new[l] = (("variant", rv["variant"]), None)
+    elif r == "aggregate" and rv.get("ak") == "tuple":
+        for i, op in enumerate(rv["ops"]):
+            if op["o"] == "const" and isinstance(op["c"].get("v"), bool):
+                new[(l, i)] = (op["c"]["v"], None)
+            else:
+                src = _src_key(op)
+                if src is not None and src in env:
+                    new[(l, i)] = (env[src], src)
+    elif r == "discr" and rv.get("variants"):
+        src = _src_key(rv["place"])
+        k = env.get(src) if src is not None else None
         if isinstance(k, tuple) and k[0] == "variant" and k[1] in rv["variants"]:
-            env[l] = rv["variants"].index(k[1])
-            return
-    env.pop(l, None)
+            new[l] = (rv["variants"].index(k[1]), src)
+    newroots = {}
+    if roots is not None:
+        for key, (_, src) in new.items():
+            base = roots.get(src, frozenset()) if src is not None else frozenset()
+            newroots[key] = base | {l}
+    _kill(env, l, roots)
+    for key, (val, _) in new.items():
+        env[key] = val
+    if roots is not None:
+        roots.update(newroots)
 
 
 def _call_knowledge(body, env, t):
